@@ -18,8 +18,8 @@ date = datetime.date
 # G1 value pools and tables
 
 POOL = {
-    # (-1 and -2 have the same Python hash, as have 0 and 2**61 - 1: values that differ but collide)
-    T_INT: [0, 1, -1, -2, 2, 3, -3, 7, 10, 100, 2 ** 61 - 1],
+    # (-1 and -2 have the same Python hash: values that differ but collide)
+    T_INT: [0, 1, -1, -2, 2, 3, -3, 7, 10, 100],
     T_DEC: [D('0'), D('0.0'), D('-1'), D('-2'), D('-1.5'), D('1.50'), D('2'), D('1E+2'), D('0.001'), D('1E-8'), D('123456.789'), D('3')],
     T_STR: ['', 'a', 'b', 'A', ' ', '%', 'x1', 'ab', 'ba', 'a b', 'Ab%'],
     T_DATE: [date(2020, 1, 1), date(2019, 12, 31), date(2020, 2, 29), date(2020, 3, 31), date(2000, 1, 1),
